@@ -241,6 +241,14 @@ theorem real_arguments_follow_typed_names (f : Fmt) (vals : List V) :
         (f.args.map fun a => { key := .real a.name, required := a.required, multi := a.multi }) :=
   (fill_insertNames f.cmds _ vals).1
 
+/-- **The hypotheses are checked on the real formats.**  The driver evaluates `multiLastB` and
+`nodupKeysB` on every flattened format read from the real builder (entry `c01.wf`, compared with
+`true` by the correspondence); they decide exactly the two hypotheses of the theorems above. -/
+theorem wf_decides (f : Fmt) :
+    (multiLastB f.fargs = true ∧ nodupKeysB f.fargs = true) ↔
+      (MultiLast f.fargs ∧ (f.fargs.map (·.key)).Nodup) := by
+  rw [multiLastB_iff, nodupKeysB_iff]
+
 /-- all command names typed (by name or alias): the re-alignment moves nothing -/
 theorem all_names_typed_nothing_moves (cmds : List CmdName) (typed : List Str) (rest : List V)
     (hl : typed.length = cmds.length)
